@@ -73,4 +73,735 @@ def tokText (toks : List Tok) : Str := (toks.map Prod.fst).flatten
 @[simp] theorem tokText_append (a b : List Tok) : tokText (a ++ b) = tokText a ++ tokText b := by
   simp [tokText]
 
+def closeIf : Bool → Str | true => ['}'] | false => []
+
+theorem scanM_text (m : ScanMode) (s : Str) (toks : List Tok) (h : scanM m s = some toks) :
+    tokText toks = m.acc ++ s ++ closeIf (endsInSpecial m.sp m.depth s) := by
+  fun_induction scanM m s generalizing toks with
+  | case1 => cases h; simp [ScanMode.acc, ScanMode.sp, endsInSpecial, closeIf]
+  | case2 => cases h; simp [ScanMode.acc, ScanMode.sp, endsInSpecial, closeIf]
+  | case3 d r hs ih =>
+    obtain ⟨t, ht, rfl⟩ := Option.map_eq_some_iff.1 h
+    have := ih t ht
+    simp only [ScanMode.acc, ScanMode.sp, ScanMode.depth, endsInSpecial] at this ⊢
+    simp [this, hs]
+  | case4 => simp at h
+  | case5 d r hs hd ih =>
+    obtain ⟨t, ht, rfl⟩ := Option.map_eq_some_iff.1 h
+    have := ih t ht
+    have hb : (decide (d = 0) && decide (r.head? = some '\\')) = false := by
+      simpa using hs
+    simp only [ScanMode.acc, ScanMode.sp, ScanMode.depth, endsInSpecial] at this ⊢
+    rw [hb]; simp [this]
+  | case6 d c r hc hcd ih =>
+    obtain ⟨t, ht, rfl⟩ := Option.map_eq_some_iff.1 h
+    have := ih t ht
+    simp only [ScanMode.acc, ScanMode.sp, ScanMode.depth, endsInSpecial] at this ⊢
+    simp [this, hcd.1]
+  | case7 d c r hc hcd ih =>
+    obtain ⟨t, ht, rfl⟩ := Option.map_eq_some_iff.1 h
+    have := ih t ht
+    simp only [ScanMode.acc, ScanMode.sp, ScanMode.depth, endsInSpecial] at this ⊢
+    by_cases hc' : c = '}'
+    · have : d = 0 := by simp [hc'] at hcd; exact hcd
+      subst this; simp_all
+    · simp [this, hc, hc']
+  | case8 => simp at h
+  | case9 k acc r hk ih =>
+    have := ih toks h
+    simp only [ScanMode.acc, ScanMode.sp, ScanMode.depth, endsInSpecial] at this ⊢
+    simp [this]
+  | case10 k acc r hk _ ih =>
+    obtain ⟨t, ht, rfl⟩ := Option.map_eq_some_iff.1 h
+    have := ih t ht
+    simp only [ScanMode.acc, ScanMode.sp, ScanMode.depth, endsInSpecial] at this ⊢
+    have h1 : ¬ (1 < k) := by omega
+    have h2 : k - 1 = 0 := by omega
+    simp [this, h1, h2]
+  | case11 k acc r hk _ ih =>
+    have := ih toks h
+    simp only [ScanMode.acc, ScanMode.sp, ScanMode.depth, endsInSpecial] at this ⊢
+    have h1 : (1 < k) := by omega
+    simp [this, h1]
+  | case12 k acc c r hc hc2 ih =>
+    have := ih toks h
+    simp only [ScanMode.acc, ScanMode.sp, ScanMode.depth, endsInSpecial] at this ⊢
+    simp [this, hc, hc2]
+
+/-! ### balanced strings have no unclosed special character -/
+
+theorem endsInSpecial_of_depthAfter (s : Str) : ∀ (sp : Bool) (d e : Nat),
+    depthAfter d s = some e → (sp = true → 1 ≤ d) → endsInSpecial sp d s = true → 1 ≤ e := by
+  induction s with
+  | nil => intro sp d e h hs he; simp [depthAfter] at h; simp [endsInSpecial] at he; subst h; exact hs he
+  | cons c r ih =>
+    intro sp d e h hs he
+    simp only [depthAfter, endsInSpecial] at h he
+    split at h
+    · simp only [if_pos ‹c = '{'›] at he
+      exact ih _ _ _ h (by intro; omega) he
+    · simp only [if_neg ‹¬ c = '{'›] at he
+      split at h
+      · simp only [if_pos ‹c = '}'›] at he
+        split at h
+        · cases h
+        · refine ih _ _ _ h ?_ he
+          simp; omega
+      · simp only [if_neg ‹¬ c = '}'›] at he
+        exact ih _ _ _ h hs he
+
+theorem specialsClosed_of_balanced (s : Str) (h : balanced s = true) : specialsClosed s = true := by
+  simp only [balanced, decide_eq_true_eq] at h
+  simp only [specialsClosed, Bool.not_eq_true']
+  cases he : endsInSpecial false 0 s with
+  | false => rfl
+  | true => have := endsInSpecial_of_depthAfter s false 0 0 h (by simp) he; omega
+
+theorem depthAfter_append (a b : Str) : ∀ d, depthAfter d (a ++ b) = (depthAfter d a).bind fun d' => depthAfter d' b := by
+  induction a with
+  | nil => intro d; simp [depthAfter]
+  | cons c r ih =>
+    intro d
+    simp only [List.cons_append, depthAfter]
+    split
+    · exact ih _
+    · split
+      · split
+        · rfl
+        · exact ih _
+      · exact ih _
+
+/-! ### levels -/
+
+/-- every token's level is the brace depth after it, starting from depth `d` -/
+def LevelChain : Nat → List Tok → Prop
+  | _, [] => True
+  | d, (t, l) :: r => depthAfter d t = some l ∧ LevelChain l r
+
+theorem LevelChain.prefix {d : Nat} {toks : List Tok} (h : LevelChain d toks) :
+    ∀ pre t post, toks = pre ++ t :: post → depthAfter d (tokText (pre ++ [t])) = some t.2 := by
+  induction toks generalizing d with
+  | nil => intro pre t post h; simp at h
+  | cons t0 r ih =>
+    intro pre t post heq
+    obtain ⟨t0t, t0l⟩ := t0
+    cases pre with
+    | nil =>
+      simp only [List.nil_append, List.cons.injEq] at heq
+      obtain ⟨rfl, rfl⟩ := heq
+      simpa [tokText] using h.1
+    | cons p pre' =>
+      simp only [List.cons_append, List.cons.injEq] at heq
+      obtain ⟨rfl, rfl⟩ := heq
+      simp only [List.cons_append, tokText_cons, depthAfter_append, h.1, Option.bind_some]
+      exact ih h.2 pre' t post rfl
+
+def LevelsGoal (s : Str) (toks : List Tok) : ScanMode → Prop
+  | .norm d => ∀ e, depthAfter d s = some e → endsInSpecial false d s = false → LevelChain d toks
+  | .spec k acc => ∀ e, depthAfter k s = some e → endsInSpecial true k s = false →
+      1 ≤ k → depthAfter 1 acc = some k → LevelChain 1 toks
+
+theorem scanM_levels (m : ScanMode) (s : Str) (toks : List Tok) (h : scanM m s = some toks) :
+    LevelsGoal s toks m := by
+  fun_induction scanM m s generalizing toks with
+  | case1 => cases h; simp [LevelsGoal, LevelChain]
+  | case2 => simp [LevelsGoal, endsInSpecial]
+  | case3 d r hs ih =>
+    obtain ⟨t, ht, rfl⟩ := Option.map_eq_some_iff.1 h
+    simp only [LevelsGoal]
+    intro e hd hsp
+    simp only [depthAfter, endsInSpecial, if_true] at hd hsp
+    obtain ⟨rfl, hr⟩ := hs
+    have := ih t ht e hd (by simpa [hr] using hsp)
+    exact ⟨by simp [depthAfter], this (by omega) (by simp [depthAfter])⟩
+  | case4 => simp at h
+  | case5 d r hs hd' ih =>
+    obtain ⟨t, ht, rfl⟩ := Option.map_eq_some_iff.1 h
+    have hb : (decide (d = 0) && decide (r.head? = some '\\')) = false := by
+      simpa using hs
+    simp only [LevelsGoal]
+    intro e hd hsp
+    simp only [depthAfter, endsInSpecial, if_true] at hd hsp
+    rw [hb] at hsp
+    have := ih t ht e hd (by simpa using hsp)
+    exact ⟨by simp [depthAfter], this⟩
+  | case6 d c r hc hcd ih =>
+    obtain ⟨t, ht, rfl⟩ := Option.map_eq_some_iff.1 h
+    obtain ⟨rfl, hd0⟩ := hcd
+    have hne : d ≠ 0 := by omega
+    simp only [LevelsGoal]
+    intro e hd hsp
+    simp only [depthAfter, endsInSpecial, if_true, if_neg hc, if_neg hne] at hd hsp
+    have := ih t ht e hd (by simpa using hsp)
+    exact ⟨by simp [depthAfter, hne], this⟩
+  | case7 d c r hc hcd ih =>
+    obtain ⟨t, ht, rfl⟩ := Option.map_eq_some_iff.1 h
+    simp only [LevelsGoal]
+    intro e hd hsp
+    by_cases hc' : c = '}'
+    · have : d = 0 := by simp [hc'] at hcd; exact hcd
+      subst this; subst hc'
+      simp [depthAfter] at hd
+    · simp only [depthAfter, endsInSpecial, if_neg hc, if_neg hc'] at hd hsp
+      have := ih t ht e hd hsp
+      exact ⟨by simp [depthAfter, hc, hc'], this⟩
+  | case8 => simp at h
+  | case9 k acc r hk ih =>
+    simp only [LevelsGoal]
+    intro e hd hsp h1 h2
+    simp only [depthAfter, endsInSpecial, if_true] at hd hsp
+    exact ih toks h e hd (by simpa using hsp) (by omega) (by simp [depthAfter_append, h2, depthAfter])
+  | case10 k acc r hk hne ih =>
+    obtain ⟨t, ht, rfl⟩ := Option.map_eq_some_iff.1 h
+    simp only [LevelsGoal]
+    intro e hd hsp h1 h2
+    have hk1 : k = 1 := by omega
+    subst hk1
+    simp only [depthAfter, endsInSpecial, if_true, if_neg hne] at hd hsp
+    simp at hd hsp
+    have := ih t ht e hd hsp
+    exact ⟨h2, by simp [depthAfter], this⟩
+  | case11 k acc r hk hne ih =>
+    have hk0 : k ≠ 0 := by omega
+    have hk1 : 1 < k := by omega
+    simp only [LevelsGoal]
+    intro e hd hsp h1 h2
+    simp only [depthAfter, endsInSpecial, if_true, if_neg hne, if_neg hk0] at hd hsp
+    exact ih toks h e hd (by simpa [hk1] using hsp) (by omega) (by simp [depthAfter_append, h2, depthAfter, hk0])
+  | case12 k acc c r hc hc2 ih =>
+    simp only [LevelsGoal]
+    intro e hd hsp h1 h2
+    simp only [depthAfter, endsInSpecial, if_neg hc, if_neg hc2] at hd hsp
+    exact ih toks h e hd hsp h1 (by simp [depthAfter_append, h2, depthAfter, hc, hc2])
+
+/-! ### the nesting guard -/
+
+theorem le_maxDepth (s : Str) (d : Nat) : d ≤ maxDepth d s := by
+  cases s with
+  | nil => simp [maxDepth]
+  | cons c r => simp only [maxDepth]; split <;> [skip; split] <;> omega
+
+theorem scanM_isSome_iff (m : ScanMode) (s : Str) (hm : m.depth ≤ maxLevel) :
+    (scanM m s).isSome ↔ maxDepth m.depth s ≤ maxLevel := by
+  fun_induction scanM m s with
+  | case1 => simpa [maxDepth] using hm
+  | case2 => simpa [maxDepth] using hm
+  | case3 d r hs ih =>
+    obtain ⟨rfl, hr⟩ := hs
+    simp only [Option.isSome_map, maxDepth, if_true]
+    simp only [ScanMode.depth] at ih hm ⊢
+    rw [ih (by simp [maxLevel])]
+    have := le_maxDepth r 1
+    simp only [Nat.zero_add]; omega
+  | case4 d r hs hd =>
+    simp only [maxDepth, if_true, ScanMode.depth, Option.isSome_none] at hm ⊢
+    have := le_maxDepth r (d + 1)
+    simp only [maxLevel, Bool.false_eq_true, false_iff] at *; omega
+  | case5 d r hs hd ih =>
+    simp only [Option.isSome_map, maxDepth, if_true]
+    simp only [ScanMode.depth] at ih hm ⊢
+    rw [ih (by omega)]
+    have := le_maxDepth r (d + 1)
+    omega
+  | case6 d c r hc hcd ih =>
+    simp only [Option.isSome_map, maxDepth, if_neg hc, if_pos hcd.1]
+    simp only [ScanMode.depth] at ih hm ⊢
+    rw [ih (by omega)]
+    omega
+  | case7 d c r hc hcd ih =>
+    simp only [Option.isSome_map, maxDepth, if_neg hc]
+    simp only [ScanMode.depth] at ih hm ⊢
+    rw [ih hm]
+    by_cases hc' : c = '}'
+    · have : d = 0 := by simp [hc'] at hcd; exact hcd
+      subst this; simp [hc']
+    · simp only [if_neg hc']; omega
+  | case8 k acc r hk =>
+    simp only [maxDepth, if_true, ScanMode.depth, Option.isSome_none] at hm ⊢
+    have := le_maxDepth r (k + 1)
+    simp only [maxLevel, Bool.false_eq_true, false_iff] at *; omega
+  | case9 k acc r hk ih =>
+    simp only [maxDepth, if_true]
+    simp only [ScanMode.depth] at ih hm ⊢
+    rw [ih (by omega)]
+    have := le_maxDepth r (k + 1)
+    omega
+  | case10 k acc r hk hne ih =>
+    simp only [Option.isSome_map, maxDepth, if_neg hne, if_true]
+    simp only [ScanMode.depth] at ih hm ⊢
+    rw [ih (by simp)]
+    have : k - 1 = 0 := by omega
+    rw [this]; omega
+  | case11 k acc r hk hne ih =>
+    simp only [maxDepth, if_neg hne, if_true]
+    simp only [ScanMode.depth] at ih hm ⊢
+    rw [ih (by omega)]
+    omega
+  | case12 k acc c r hc hc2 ih =>
+    simp only [maxDepth, if_neg hc, if_neg hc2]
+    simp only [ScanMode.depth] at ih hm ⊢
+    rw [ih hm]
+    omega
+
+/-! ### text length -/
+
+/-- number of tokens that are not a brace -/
+def tokCount (toks : List Tok) : Nat := (toks.filter fun t => !isBraceTok t.1).length
+
+@[simp] theorem tokCount_nil : tokCount [] = 0 := rfl
+theorem tokCount_cons (t : Tok) (r : List Tok) :
+    tokCount (t :: r) = (if isBraceTok t.1 then 0 else 1) + tokCount r := by
+  simp only [tokCount, List.filter_cons]
+  cases isBraceTok t.1 <;> simp
+  omega
+
+theorem isBraceTok_open : isBraceTok ['{'] = true := by decide
+theorem isBraceTok_close : isBraceTok ['}'] = true := by decide
+theorem isBraceTok_single (c : Char) : isBraceTok [c] = (c = '{' || c = '}') := by
+  simp [isBraceTok]
+theorem isBraceTok_of_head {t : Str} (h : t.head? = some '\\') : isBraceTok t = false := by
+  cases t with
+  | nil => simp at h
+  | cons c r =>
+    simp only [List.head?_cons, Option.some.injEq] at h
+    subst h
+    simp [isBraceTok]
+
+theorem bibtexLen_eq (s : Str) : bibtexLen s = (scan s).map tokCount := rfl
+
+def CountGoal (s : Str) (toks : List Tok) : ScanMode → Prop
+  | .norm d => tokCount toks = textLength false d s
+  | .spec k acc => (acc ++ s).head? = some '\\' → tokCount toks = 1 + textLength true k s
+
+theorem scanM_count (m : ScanMode) (s : Str) (toks : List Tok) (h : scanM m s = some toks) :
+    CountGoal s toks m := by
+  fun_induction scanM m s generalizing toks with
+  | case1 => cases h; simp [CountGoal, textLength]
+  | case2 k acc =>
+    cases h
+    simp only [CountGoal, List.append_nil]
+    intro hh
+    simp [tokCount_cons, isBraceTok_of_head hh, isBraceTok_close, textLength]
+  | case3 d r hs ih =>
+    obtain ⟨t, ht, rfl⟩ := Option.map_eq_some_iff.1 h
+    obtain ⟨rfl, hr⟩ := hs
+    have := ih t ht
+    simp only [CountGoal, List.nil_append] at this ⊢
+    simp [tokCount_cons, isBraceTok_open, textLength, hr, this hr]
+  | case4 => simp at h
+  | case5 d r hs hd' ih =>
+    obtain ⟨t, ht, rfl⟩ := Option.map_eq_some_iff.1 h
+    have hb : (decide (d = 0) && decide (r.head? = some '\\')) = false := by
+      simpa using hs
+    have := ih t ht
+    simp only [CountGoal] at this ⊢
+    simp only [tokCount_cons, isBraceTok_open, textLength, if_true, hb, this]
+    simp
+  | case6 d c r hc hcd ih =>
+    obtain ⟨t, ht, rfl⟩ := Option.map_eq_some_iff.1 h
+    obtain ⟨rfl, hd0⟩ := hcd
+    have := ih t ht
+    simp only [CountGoal] at this ⊢
+    simp only [tokCount_cons, isBraceTok_close, textLength, if_true, if_neg hc, this]
+    simp
+  | case7 d c r hc hcd ih =>
+    obtain ⟨t, ht, rfl⟩ := Option.map_eq_some_iff.1 h
+    have := ih t ht
+    simp only [CountGoal] at this ⊢
+    by_cases hc' : c = '}'
+    · have : d = 0 := by simp [hc'] at hcd; exact hcd
+      subst this; subst hc'
+      simp only [tokCount_cons, isBraceTok_close, textLength, if_true, if_neg hc, this]
+      simp
+    · simp only [tokCount_cons, isBraceTok_single, textLength, if_neg hc, if_neg hc', this]
+      simp [hc, hc']
+  | case8 => simp at h
+  | case9 k acc r hk ih =>
+    have := ih toks h
+    simp only [CountGoal] at this ⊢
+    intro hh
+    rw [this (by simpa using hh)]
+    simp [textLength]
+  | case10 k acc r hk hne ih =>
+    obtain ⟨t, ht, rfl⟩ := Option.map_eq_some_iff.1 h
+    have := ih t ht
+    simp only [CountGoal] at this ⊢
+    intro hh
+    have hacc : acc.head? = some '\\' := by
+      cases acc with
+      | nil => simp at hh
+      | cons a acc' => simpa using hh
+    have h1 : ¬ (1 < k) := by omega
+    have h2 : k - 1 = 0 := by omega
+    simp [tokCount_cons, isBraceTok_of_head hacc, isBraceTok_close, textLength, this, h1, h2]
+  | case11 k acc r hk hne ih =>
+    have := ih toks h
+    simp only [CountGoal] at this ⊢
+    intro hh
+    have h1 : (1 < k) := by omega
+    rw [this (by simpa using hh)]
+    simp [textLength, h1]
+  | case12 k acc c r hc hc2 ih =>
+    have := ih toks h
+    simp only [CountGoal] at this ⊢
+    intro hh
+    rw [this (by simpa using hh)]
+    simp [textLength, hc, hc2]
+
+/-- scanning text without braces: one token per character -/
+theorem scanM_plain (s : Str) (d : Nat) (hs : ∀ c ∈ s, c ≠ '{' ∧ c ≠ '}') :
+    scanM (.norm d) s = some (s.map fun c => ([c], d)) := by
+  induction s with
+  | nil => simp [scanM]
+  | cons c r ih =>
+    have hc := hs c (by simp)
+    have := ih (fun x hx => hs x (List.mem_cons_of_mem _ hx))
+    simp [scanM, hc.1, hc.2, this]
+
+theorem tokCount_plain (s : Str) (d : Nat) (hs : ∀ c ∈ s, c ≠ '{' ∧ c ≠ '}') :
+    tokCount (s.map fun c => ([c], d)) = s.length := by
+  induction s with
+  | nil => rfl
+  | cons c r ih =>
+    have hc := hs c (by simp)
+    have := ih (fun x hx => hs x (List.mem_cons_of_mem _ hx))
+    simp [tokCount_cons, isBraceTok_single, hc.1, hc.2, this]; omega
+
+/-- the body of a group: from depth `j` to depth `j'` without ever closing the group -/
+theorem scanM_spec_body (body rest : Str) : ∀ (j j' : Nat) (acc : Str),
+    depthAfter j body = some j' → maxDepth (j + 1) body ≤ maxLevel →
+    scanM (.spec (j + 1) acc) (body ++ rest) = scanM (.spec (j' + 1) (acc ++ body)) rest := by
+  induction body with
+  | nil => intro j j' acc h _; simp [depthAfter] at h; subst h; simp
+  | cons c r ih =>
+    intro j j' acc h hm
+    simp only [depthAfter, maxDepth] at h hm
+    simp only [List.cons_append, scanM]
+    by_cases hc : c = '{'
+    · simp only [if_pos hc] at h hm ⊢
+      have := le_maxDepth r (j + 1 + 1)
+      rw [if_neg (by omega), ih _ _ _ h (by omega)]
+      simp [hc]
+    · simp only [if_neg hc] at h hm ⊢
+      by_cases hc' : c = '}'
+      · simp only [if_pos hc'] at h hm ⊢
+        by_cases hj : j = 0
+        · simp [hj] at h
+        · simp only [if_neg hj] at h
+          rw [if_neg (by omega)]
+          have e1 : j + 1 - 1 = (j - 1) + 1 := by omega
+          rw [e1] at hm ⊢
+          rw [ih _ _ _ h (by omega)]
+          simp [hc']
+      · simp only [if_neg hc'] at h hm ⊢
+        rw [ih _ _ _ h (by omega)]
+        simp
+
+/-- a closed special character is three tokens: `{`, its inner text, `}` -/
+theorem scan_special (body r : Str) (hb : balanced body = true) (hm : maxDepth 1 body ≤ maxLevel) :
+    scan (['{', '\\'] ++ body ++ ['}'] ++ r) =
+      (scan r).map fun t => (['{'], 1) :: ('\\' :: body, 1) :: (['}'], 0) :: t := by
+  simp only [balanced, decide_eq_true_eq] at hb
+  have := scanM_spec_body body ('}' :: r) 0 0 ['\\'] hb (by simpa using hm)
+  simp only [scan, List.cons_append, List.nil_append, List.append_assoc, scanM, List.head?_cons,
+    and_self, if_true]
+  simp only [Nat.zero_add] at this
+  simp only [this, scanM, List.cons_append, List.nil_append]
+  simp [Function.comp_def]
+
+theorem textLength_no_backslash (s : Str) (hs : ∀ c ∈ s, c ≠ '\\') : ∀ d,
+    textLength false d s = (s.filter fun c => c ≠ '{' ∧ c ≠ '}').length := by
+  induction s with
+  | nil => intro d; rfl
+  | cons c r ih =>
+    intro d
+    have := ih (fun x hx => hs x (List.mem_cons_of_mem _ hx))
+    have hr : r.head? ≠ some '\\' := by
+      cases r with
+      | nil => simp
+      | cons a r' => simpa using hs a (by simp)
+    simp only [textLength, List.filter_cons]
+    by_cases hc : c = '{'
+    · simp [hc, hr, this]
+    · by_cases hc' : c = '}'
+      · simp [hc', this]
+      · simp [hc, hc', this]; omega
+
+/-! ### one step of the scanner -/
+
+theorem scanM_norm_open_special {r : Str} (hr : r.head? = some '\\') :
+    scanM (.norm 0) ('{' :: r) = (scanM (.spec 1 []) r).map ((['{'], 1) :: ·) := by
+  simp [scanM, hr]
+
+theorem scanM_norm_open {d : Nat} {r : Str} (hs : ¬ (d = 0 ∧ r.head? = some '\\')) (hd : ¬ d ≥ maxLevel) :
+    scanM (.norm d) ('{' :: r) = (scanM (.norm (d + 1)) r).map ((['{'], d + 1) :: ·) := by
+  simp only [scanM, if_true, if_neg hs, if_neg hd]
+
+theorem scanM_norm_close {d : Nat} {r : Str} (hd : d > 0) :
+    scanM (.norm d) ('}' :: r) = (scanM (.norm (d - 1)) r).map ((['}'], d - 1) :: ·) := by
+  have h1 : ¬ ('}' = '{') := by decide
+  simp only [scanM, if_neg h1, true_and, if_pos hd]
+
+theorem scanM_norm_char {d : Nat} {c : Char} {r : Str} (hc : ¬ c = '{') (hcd : ¬ (c = '}' ∧ d > 0)) :
+    scanM (.norm d) (c :: r) = (scanM (.norm d) r).map (([c], d) :: ·) := by
+  simp only [scanM, if_neg hc, if_neg hcd]
+
+theorem scanM_spec_open {k : Nat} {acc r : Str} (hk : ¬ k ≥ maxLevel) :
+    scanM (.spec k acc) ('{' :: r) = scanM (.spec (k + 1) (acc ++ ['{'])) r := by
+  simp only [scanM, if_true, if_neg hk]
+
+theorem scanM_spec_close1 {k : Nat} {acc r : Str} (hk : k ≤ 1) :
+    scanM (.spec k acc) ('}' :: r) = (scanM (.norm 0) r).map fun t => (acc, 1) :: (['}'], 0) :: t := by
+  have h1 : ¬ ('}' = '{') := by decide
+  simp only [scanM, if_neg h1, if_true, if_pos hk]
+
+theorem scanM_spec_close {k : Nat} {acc r : Str} (hk : ¬ k ≤ 1) :
+    scanM (.spec k acc) ('}' :: r) = scanM (.spec (k - 1) (acc ++ ['}'])) r := by
+  have h1 : ¬ ('}' = '{') := by decide
+  simp only [scanM, if_neg h1, if_true, if_neg hk]
+
+theorem scanM_spec_char {k : Nat} {acc r : Str} {c : Char} (hc : ¬ c = '{') (hc2 : ¬ c = '}') :
+    scanM (.spec k acc) (c :: r) = scanM (.spec k (acc ++ [c])) r := by
+  simp only [scanM, if_neg hc, if_neg hc2]
+/-! ### text prefix -/
+
+/-- `prefixAux` with the level of the previous token made explicit (so that the closing braces
+after the last token need no look-ahead) -/
+def prefixGo (n : Int) : Nat → Nat → List Tok → Str
+  | _, lvl, [] => List.replicate lvl '}'
+  | len, _, (t, l) :: r =>
+    let len' := if isBraceTok t then len else len + 1
+    if (len' : Int) ≥ n then t ++ List.replicate l '}' else t ++ prefixGo n len' l r
+
+theorem prefixGo_cons_brace (n : Int) (len lvl : Nat) (t : Str) (l : Nat) (r : List Tok)
+    (hb : isBraceTok t = true) :
+    prefixGo n len lvl ((t, l) :: r) =
+      if (len : Int) ≥ n then t ++ List.replicate l '}' else t ++ prefixGo n len l r := by
+  simp only [prefixGo, hb, if_true]
+
+theorem prefixGo_cons_nonbrace (n : Int) (len lvl : Nat) (t : Str) (l : Nat) (r : List Tok)
+    (hb : isBraceTok t = false) :
+    prefixGo n len lvl ((t, l) :: r) =
+      if ((len + 1 : Nat) : Int) ≥ n then t ++ List.replicate l '}' else t ++ prefixGo n (len + 1) l r := by
+  simp only [prefixGo, hb, Bool.false_eq_true, if_false]
+
+theorem prefixAux_eq_go (n : Int) (toks : List Tok) : toks ≠ [] → ∀ len lvl,
+    prefixAux n len toks = prefixGo n len lvl toks := by
+  induction toks with
+  | nil => intro h; exact absurd rfl h
+  | cons t r ih =>
+    intro _ len lvl
+    obtain ⟨t, l⟩ := t
+    simp only [prefixAux, prefixGo]
+    generalize (if isBraceTok t = true then len else len + 1) = len'
+    by_cases hstop : (len' : Int) ≥ n
+    · simp only [if_pos hstop]
+    · simp only [if_neg hstop]
+      cases r with
+      | nil => simp [prefixGo]
+      | cons x r' => simp only; rw [ih (by simp)]
+
+theorem prefixAux_zero_eq_go (n : Int) (toks : List Tok) (len : Nat) :
+    prefixAux n len toks = prefixGo n len 0 toks := by
+  cases toks with
+  | nil => simp [prefixAux, prefixGo]
+  | cons t r => exact prefixAux_eq_go n _ (by simp) len 0
+
+theorem scanM_closers (d : Nat) :
+    ∃ toks', scanM (.norm d) (List.replicate d '}') = some toks' ∧ tokCount toks' = 0 := by
+  induction d with
+  | zero => exact ⟨[], by simp [scanM], by simp⟩
+  | succ d ih =>
+    obtain ⟨t, ht, hc⟩ := ih
+    refine ⟨(['}'], d) :: t, ?_, ?_⟩
+    · rw [List.replicate_succ, scanM_norm_close (by omega)]
+      simp [ht]
+    · simp [tokCount_cons, isBraceTok_close, hc]
+
+theorem scanM_norm_cons_shape {d : Nat} {c : Char} {r : Str} {toks : List Tok}
+    (h : scanM (.norm d) (c :: r) = some toks) : ∃ l rest, toks = ([c], l) :: rest := by
+  simp only [scanM] at h
+  split at h
+  · rename_i hc; subst hc
+    split at h
+    · obtain ⟨t, _, rfl⟩ := Option.map_eq_some_iff.1 h; exact ⟨_, _, rfl⟩
+    · split at h
+      · cases h
+      · obtain ⟨t, _, rfl⟩ := Option.map_eq_some_iff.1 h; exact ⟨_, _, rfl⟩
+  · split at h
+    · rename_i hc; obtain ⟨rfl, _⟩ := hc
+      obtain ⟨t, _, rfl⟩ := Option.map_eq_some_iff.1 h; exact ⟨_, _, rfl⟩
+    · obtain ⟨t, _, rfl⟩ := Option.map_eq_some_iff.1 h; exact ⟨_, _, rfl⟩
+
+theorem prefixGo_head (n : Int) (len d : Nat) (r : Str) (toks : List Tok)
+    (h : scanM (.norm d) r = some toks) (hh : (prefixGo n len d toks).head? = some '\\') :
+    r.head? = some '\\' := by
+  cases r with
+  | nil =>
+    simp only [scanM, Option.some.injEq] at h
+    subst h
+    simp only [prefixGo] at hh
+    cases d with
+    | zero => simp at hh
+    | succ d => simp [List.replicate_succ] at hh
+  | cons c r' =>
+    obtain ⟨l, rest, rfl⟩ := scanM_norm_cons_shape h
+    cases hb : isBraceTok [c] with
+    | true =>
+      rw [prefixGo_cons_brace _ _ _ _ _ _ hb] at hh
+      split at hh <;> simpa using hh
+    | false =>
+      rw [prefixGo_cons_nonbrace _ _ _ _ _ _ hb] at hh
+      split at hh <;> simpa using hh
+
+def PrefixGoal (n : Int) (s : Str) (toks : List Tok) : ScanMode → Prop
+  | .norm d => ∀ len : Nat, (len : Int) < n →
+      ∃ toks', scanM (.norm d) (prefixGo n len d toks) = some toks' ∧
+        tokCount toks' = min (n - len).toNat (tokCount toks)
+  | .spec k acc => (acc ++ s).head? = some '\\' → ∀ len : Nat, (len : Int) < n →
+      ∃ Y toks', prefixGo n len 1 toks = acc ++ Y ∧ (acc ++ Y).head? = some '\\' ∧
+        scanM (.spec k acc) Y = some toks' ∧
+        tokCount toks' = min (n - len).toNat (tokCount toks)
+
+theorem head_acc_of_close {acc r : Str} (hh : (acc ++ '}' :: r).head? = some '\\') :
+    acc.head? = some '\\' := by
+  cases acc with
+  | nil => simp at hh
+  | cons a acc' => simpa using hh
+
+theorem scanM_prefix (n : Int) (m : ScanMode) (s : Str) (toks : List Tok) (h : scanM m s = some toks) :
+    PrefixGoal n s toks m := by
+  fun_induction scanM m s generalizing toks with
+  | case1 d =>
+    cases h
+    simp only [PrefixGoal, prefixGo, tokCount_nil]
+    intro len hlen
+    obtain ⟨t, ht, hc⟩ := scanM_closers d
+    exact ⟨t, ht, by omega⟩
+  | case2 k acc =>
+    cases h
+    simp only [PrefixGoal, List.append_nil]
+    intro hh len hlen
+    have hb := isBraceTok_of_head hh
+    have hY : prefixGo n len 1 [(acc, 1), (['}'], 0)] = acc ++ ['}'] := by
+      rw [prefixGo_cons_nonbrace _ _ _ _ _ _ hb, prefixGo_cons_brace _ _ _ _ _ _ isBraceTok_close]
+      simp [prefixGo]
+    have hh2 : (acc ++ ['}']).head? = some '\\' := by
+      cases acc with
+      | nil => simp at hh
+      | cons a acc' => simpa using hh
+    by_cases hk : k ≤ 1
+    · refine ⟨['}'], [(acc, 1), (['}'], 0)], hY, hh2, by rw [scanM_spec_close1 hk]; simp [scanM], ?_⟩
+      simp [tokCount_cons, hb, isBraceTok_close]; omega
+    · refine ⟨['}'], [(acc ++ ['}'], 1), (['}'], 0)], hY, hh2, by rw [scanM_spec_close hk]; simp [scanM], ?_⟩
+      simp [tokCount_cons, hb, isBraceTok_close, isBraceTok_of_head hh2]; omega
+  | case3 d r hs ih =>
+    obtain ⟨t, ht, rfl⟩ := Option.map_eq_some_iff.1 h
+    obtain ⟨rfl, hr⟩ := hs
+    have := ih t ht
+    simp only [PrefixGoal, List.nil_append] at this ⊢
+    intro len hlen
+    obtain ⟨Y, toks', h1, h2, h3, h4⟩ := this hr len hlen
+    refine ⟨(['{'], 1) :: toks', ?_, ?_⟩
+    · rw [prefixGo_cons_brace _ _ _ _ _ _ isBraceTok_open, if_neg (by omega), h1]
+      simp only [List.cons_append, List.nil_append]
+      rw [scanM_norm_open_special h2, h3]; rfl
+    · simp [tokCount_cons, isBraceTok_open, h4]
+  | case4 => simp at h
+  | case5 d r hs hd' ih =>
+    obtain ⟨t, ht, rfl⟩ := Option.map_eq_some_iff.1 h
+    have := ih t ht
+    simp only [PrefixGoal] at this ⊢
+    intro len hlen
+    obtain ⟨toks', h3, h4⟩ := this len hlen
+    refine ⟨(['{'], d + 1) :: toks', ?_, ?_⟩
+    · rw [prefixGo_cons_brace _ _ _ _ _ _ isBraceTok_open, if_neg (by omega)]
+      simp only [List.cons_append, List.nil_append]
+      have hX : ¬ (d = 0 ∧ (prefixGo n len (d + 1) t).head? = some '\\') := by
+        rintro ⟨hd0, hX⟩
+        exact hs ⟨hd0, prefixGo_head n len (d + 1) r t ht hX⟩
+      rw [scanM_norm_open hX hd', h3]; rfl
+    · simp [tokCount_cons, isBraceTok_open, h4]
+  | case6 d c r hc hcd ih =>
+    obtain ⟨t, ht, rfl⟩ := Option.map_eq_some_iff.1 h
+    have := ih t ht
+    simp only [PrefixGoal] at this ⊢
+    intro len hlen
+    obtain ⟨toks', h3, h4⟩ := this len hlen
+    refine ⟨(['}'], d - 1) :: toks', ?_, ?_⟩
+    · rw [prefixGo_cons_brace _ _ _ _ _ _ isBraceTok_close, if_neg (by omega)]
+      simp only [List.cons_append, List.nil_append]
+      rw [scanM_norm_close hcd.2, h3]; rfl
+    · simp [tokCount_cons, isBraceTok_close, h4]
+  | case7 d c r hc hcd ih =>
+    obtain ⟨t, ht, rfl⟩ := Option.map_eq_some_iff.1 h
+    have := ih t ht
+    simp only [PrefixGoal] at this ⊢
+    intro len hlen
+    by_cases hc' : c = '}'
+    · have hb : isBraceTok [c] = true := by simp [isBraceTok_single, hc']
+      obtain ⟨toks', h3, h4⟩ := this len hlen
+      refine ⟨([c], d) :: toks', ?_, ?_⟩
+      · rw [prefixGo_cons_brace _ _ _ _ _ _ hb, if_neg (by omega)]
+        simp only [List.cons_append, List.nil_append]
+        rw [scanM_norm_char hc hcd, h3]; rfl
+      · simp [tokCount_cons, hb, h4]
+    · have hb : isBraceTok [c] = false := by simp [isBraceTok_single, hc, hc']
+      rw [prefixGo_cons_nonbrace _ _ _ _ _ _ hb]
+      by_cases hstop : ((len + 1 : Nat) : Int) ≥ n
+      · obtain ⟨tc, htc, hcc⟩ := scanM_closers d
+        refine ⟨([c], d) :: tc, ?_, ?_⟩
+        · simp only [if_pos hstop, List.cons_append, List.nil_append]
+          rw [scanM_norm_char hc hcd, htc]; rfl
+        · simp [tokCount_cons, hb, hcc]; omega
+      · obtain ⟨toks', h3, h4⟩ := this (len + 1) (by omega)
+        refine ⟨([c], d) :: toks', ?_, ?_⟩
+        · simp only [if_neg hstop, List.cons_append, List.nil_append]
+          rw [scanM_norm_char hc hcd, h3]; rfl
+        · simp [tokCount_cons, hb, h4]; omega
+  | case8 => simp at h
+  | case9 k acc r hk ih =>
+    have := ih toks h
+    simp only [PrefixGoal] at this ⊢
+    intro hh len hlen
+    obtain ⟨Y, toks', h1, h2, h3, h4⟩ := this (by simpa using hh) len hlen
+    refine ⟨'{' :: Y, toks', by simpa using h1, by simpa using h2, ?_, h4⟩
+    rw [scanM_spec_open hk, h3]
+  | case10 k acc r hk hne ih =>
+    obtain ⟨t, ht, rfl⟩ := Option.map_eq_some_iff.1 h
+    have := ih t ht
+    simp only [PrefixGoal] at this ⊢
+    intro hh len hlen
+    have hacc := head_acc_of_close hh
+    have hb := isBraceTok_of_head hacc
+    have hh2 : ∀ Z, (acc ++ '}' :: Z).head? = some '\\' := by
+      intro Z
+      cases acc with
+      | nil => simp at hacc
+      | cons a acc' => simpa using hacc
+    by_cases hstop : ((len + 1 : Nat) : Int) ≥ n
+    · refine ⟨['}'], [(acc, 1), (['}'], 0)], ?_, hh2 _, by rw [scanM_spec_close1 hk]; simp [scanM], ?_⟩
+      · rw [prefixGo_cons_nonbrace _ _ _ _ _ _ hb, if_pos hstop]; rfl
+      · simp [tokCount_cons, hb, isBraceTok_close]; omega
+    · obtain ⟨toks', h3, h4⟩ := this (len + 1) (by omega)
+      refine ⟨'}' :: prefixGo n (len + 1) 0 t, (acc, 1) :: (['}'], 0) :: toks', ?_, hh2 _, ?_, ?_⟩
+      · rw [prefixGo_cons_nonbrace _ _ _ _ _ _ hb, if_neg hstop,
+          prefixGo_cons_brace _ _ _ _ _ _ isBraceTok_close, if_neg (by omega)]
+        rfl
+      · rw [scanM_spec_close1 hk, h3]; rfl
+      · simp [tokCount_cons, hb, isBraceTok_close, h4]; omega
+  | case11 k acc r hk hne ih =>
+    have := ih toks h
+    simp only [PrefixGoal] at this ⊢
+    intro hh len hlen
+    obtain ⟨Y, toks', h1, h2, h3, h4⟩ := this (by simpa using hh) len hlen
+    refine ⟨'}' :: Y, toks', by simpa using h1, by simpa using h2, ?_, h4⟩
+    rw [scanM_spec_close hk, h3]
+  | case12 k acc c r hc hc2 ih =>
+    have := ih toks h
+    simp only [PrefixGoal] at this ⊢
+    intro hh len hlen
+    obtain ⟨Y, toks', h1, h2, h3, h4⟩ := this (by simpa using hh) len hlen
+    refine ⟨c :: Y, toks', by simpa using h1, by simpa using h2, ?_, h4⟩
+    rw [scanM_spec_char hc hc2, h3]
 end Pybtex
